@@ -1060,9 +1060,34 @@ def _generate_structure_virtual_field_methods(enclosing_type_name, field_ir, ir)
             "boolean": "ReadBooleanFromTextStream",
             "enumeration": "ReadEnumViewFromTextStream",
         }[field_ir.read_transform.type.which_type]
+        # The inverse transform is computed in C++ types chosen for values inside
+        # the field's own range, so values outside of that range have to be
+        # rejected before the transform is evaluated.  (They could never be read
+        # back anyway.)
+        value_range_checks = []
+        if field_ir.read_transform.type.which_type == "integer":
+            bounds = field_ir.read_transform.type.integer
+            type_match = re.fullmatch(r"::std::(u?)int(\d+)_t", logical_type)
+            assert type_match, logical_type
+            bits = int(type_match.group(2))
+            type_minimum = 0 if type_match.group(1) else -(2 ** (bits - 1))
+            type_maximum = 2**bits - 1 if type_match.group(1) else 2 ** (bits - 1) - 1
+            if int(bounds.minimum_value) > type_minimum:
+                value_range_checks.append(
+                    "emboss_reserved_local_value < static_cast</**/{}>({})".format(
+                        logical_type, _render_integer(int(bounds.minimum_value))
+                    )
+                )
+            if int(bounds.maximum_value) < type_maximum:
+                value_range_checks.append(
+                    "emboss_reserved_local_value > static_cast</**/{}>({})".format(
+                        logical_type, _render_integer(int(bounds.maximum_value))
+                    )
+                )
         write_methods = code_template.format_template(
             _TEMPLATES.structure_single_virtual_field_write_methods,
             name=name,
+            value_out_of_range=" || ".join(value_range_checks) or "false",
             read_from_text_stream_function=read_from_text_stream_function,
             logical_type=logical_type,
             destination=destination,
